@@ -29,6 +29,7 @@ type Profile struct {
 	NoReplay    bool           // never reuse bytes/proofs of other ops (needed for isolation comparisons)
 	PlantPct    int            // percentage of refresh ops preceded by planting a day-old cosignature
 	DrvFaults   bool           // faults may also hit SQL driver calls
+	DeadCtxPct  int            // percentage of update requests that arrive with a context that has already ended (cancelled, or past its deadline)
 	CancelPct   int            // percentage of injected faults that are "the request's context is cancelled during a storage call" instead of an error
 	MixOldPct   int            // percentage of ops (of any class) whose old size is replaced by a hostile one: requests that fall under two rules at once
 	ECDSAPct    int            // percentage of logs whose key is ECDSA P-256 (several shipped logs use such keys)
@@ -264,6 +265,11 @@ func GenHist(t *rapid.T, p Profile) *HistCase {
 				op.Cp = CpSpec{Replay: len(c.Ops), ReplayOut: true, Branch: -1, Origin: -1, Signer: -1}
 				op.Note = "refresh"
 			}
+		}
+		if p.DeadCtxPct > 0 && len(op.Faults) == 0 && Pct(t, p.DeadCtxPct, "deadctx") {
+			// the caller has gone away before the witness looks at the request (a client that
+			// disconnected, a deadline that passed in a queue): still an update request
+			op.DeadCtx = rapid.SampledFrom([]string{"cancelled", "expired"}).Draw(t, "deadkind")
 		}
 		c.Ops = append(c.Ops, op)
 	}
